@@ -182,6 +182,10 @@ def _reduce(n, nh, gives_up=False):
         for fact in unb:
             # A4: the tested row, relaxed by one, is among the constraints - an "unbounded" answer is impossible
             h.assume(fact, "A4.unbounded_means_below_every_bound")
+        for zrow in getattr(h.ctx, "zero_rows", []):
+            # a row found to have no non-zero entry is the zero functional: at every point the contract talks about
+            for pt in [p] + [c_.witness for c_ in calls if c_.witness is not None]:
+                h.assume(e.space.ev(zrow, pt) == 0, "A5.row_without_nonzero_entry_is_zero")
         if out.kind == "raise":
             if out.exc_is(h.I, ValueError):
                 h.cover("ValueError")
@@ -237,7 +241,10 @@ def _reduce(n, nh, gives_up=False):
         if not (n == 1 and nh is None) and n > 0:
             for k, jj in enumerate(idx):
                 c_ = tested.get(jj)
-                h.check("C07.reduce.kept_row_was_tested_%d" % k, c_ is not None and (c_.status == 0 or c_.gave_up), "row %d kept without a bounded test" % jj)
+                # (a single remaining row with no context has nothing that could imply it: keeping it untested is the code's own
+                # up-front shortcut, and stays acceptable if it is taken later in the loop)
+                alone = len(idx) == 1 and nh is None
+                h.check("C07.reduce.kept_row_was_tested_%d" % k, alone or (c_ is not None and (c_.status == 0 or c_.gave_up)), "row %d kept without a bounded test" % jj)
                 if c_ is not None and c_.status == 0 and not c_.gave_up:
                     w = c_.witness
                     others = z3.And(*[e.space.ev(ra.rows[q], w) <= to_real(rb.data[q]) for q in range(len(idx)) if q != k]) if len(idx) > 1 else z3.BoolVal(True)
